@@ -26,6 +26,9 @@ def main():
         res["demo_passes_without"] = r.returncode == 0
         a = sh("git apply %s" % os.path.join(src, "patch.diff"), cwd=wt)
         if a.returncode != 0:
+            # the tree moved on (fix: commits) since the change was written: three-way apply against the recorded blobs
+            a = sh("git apply -3 %s" % os.path.join(src, "patch.diff"), cwd=wt)
+        if a.returncode != 0:
             res["apply"] = a.stderr[:300]; print(json.dumps(res)); return
         r = sh("%s test -vet=off -count=1 %s%s-run 'Seed|Demo' ./ecs" % (GO, race, tags), cwd=wt)
         res["demo_fails_with"] = r.returncode != 0
